@@ -276,59 +276,58 @@ theorem Keep.handleBind {s : Sys} (h : Keep B U0 [] s) (x t a sd i v) :
           simp only [hu', Bool.false_eq_true, if_false, false_and]
           exact h1
 
+/-- the `client_versions` rows a command received on connection `c` writes -/
+def cmdClients (s : Sys) (c : Nat) (t : Time) : Cmd → List UClient
+  | .bind a sd i v =>
+    match s.findConn c with
+    | some x => bindRows s x t a sd i v
+    | none => []
+  | _ => []
+
 /-- `onMessage` for the commands other than `release` and `close` -/
 theorem Keep.onMessage {s : Sys} (h : Keep B U0 [] s) (c : Nat) (t : Time) (id : Val) {cmd : Cmd}
     (hrel : ∀ n, cmd ≠ .release n) (hclose : ∀ m mood, cmd ≠ .close m mood) :
-    ∃ cl, Keep B U0 cl (s.onMessage c t id cmd) ∧
-      (cl = match s.findConn c, cmd with
-        | some x, .bind a sd i v => bindRows s x t a sd i v
-        | _, _ => []) := by
-  unfold Sys.onMessage
+    Keep B U0 (s.cmdClients c t cmd) (s.onMessage c t id cmd) := by
+  unfold Sys.onMessage cmdClients
   cases hx : s.findConn c with
-  | none => exact ⟨[], h, by simp⟩
+  | none => cases cmd <;> exact h
   | some x =>
     have ha : Keep B U0 [] (s.send c (.ack id)) := h.send _ _
     have hbl : (s.send c (.ack id)).blurTime = s.blurTime := blurTime_congr rfl
     cases cmd with
-    | noType => exact ⟨[], h.sendError _ _, rfl⟩
+    | noType => exact h.sendError _ _
     | unknown =>
-      refine ⟨[], ?_, rfl⟩
       dsimp only
       split
       · exact ha.sendError _ _
       · exact ha.sendError _ _
-    | ping v => exact ⟨[], ha.handlePing _ _, rfl⟩
+    | ping v => exact ha.handlePing _ _
     | bind a sd i v =>
-      refine ⟨_, ha.handleBind x t a sd i v, ?_⟩
-      simp only [bindRows, hbl]
-      rfl
+      have := ha.handleBind x t a sd i v
+      simp only [bindRows, hbl] at this
+      exact this
     | list =>
-      refine ⟨[], ?_, rfl⟩
       dsimp only
       split
       · exact ha.sendError _ _
       · exact ha.handleList _ _
     | allocate p d f =>
-      refine ⟨[], ?_, rfl⟩
       dsimp only
       split
       · exact ha.sendError _ _
       · exact ha.handleAllocate _ _ _ _ _ _ _
     | claim n f =>
-      refine ⟨[], ?_, rfl⟩
       dsimp only
       split
       · exact ha.sendError _ _
       · exact ha.handleClaim _ _ _ _ _ _
     | release n => exact absurd rfl (hrel n)
     | open_ m =>
-      refine ⟨[], ?_, rfl⟩
       dsimp only
       split
       · exact ha.sendError _ _
       · exact ha.handleOpen _ _ _ _ _
     | add ph bd =>
-      refine ⟨[], ?_, rfl⟩
       dsimp only
       split
       · exact ha.sendError _ _
